@@ -8,12 +8,14 @@ from harness import common as C
 from harness import c07_gen as G
 from harness import c07_dispatch as D
 from harness import c07_fw as F
+from harness import c07_lines as L
 
 META = {
     "id": "C07",
     "technique": "Coq proof (induction over line lists: _strip_inline_comment vs Python's comment rule, _collect_block vs Python's block rule, round trip of the block-skeleton parser over every layout of the re-layout relation; reflection over the translator-generated line-accounting table) + extracted-model correspondence with the real lexical functions, header regexes and the recorded _parse_simple_lines call tree + CPython tokenize/ast validation of the specification + re-layout metamorphism and line-accounting oracles on the real parse()+emit() with the REDUINO_VERIF hook + Coq model of the control-flow part of _emit_block / emit() with a C++ compound-statement reader as specification (induction over IR trees: the firmware's block tree and the conditions every line runs under are Python's) + block-structure oracle on the real firmware",
     "level_text": "Theorems C07_* (coq/Props/C07.v) are proved for all line lists about a Gallina model of the lexical layer of parser.py (Lang/Lex.v) against a hand-written model of Python's layout rules (Lang/PyLayout.v, validated against CPython's tokenizer and ast on every run). Block extent and comment stripping are proved inside explicit guards and refuted outside them by concrete witnesses (mixed tabs, '#' in a triple-quoted literal); comment-only lines at any column, trailing comments on column-0 headers and on elif/else/except are inside the guards since the repair of the comment handling (fixed findings, replayed on every run); the line-accounting table (69 statement kinds x 4 contexts) is regenerated from the current parser and checked by computation against the fixed set of the property plus the listed gaps; `continue` left the listed gaps with the repair of the parser (fixed finding, replayed on every run) and is pinned: translated in a for/while loop and at the level of the main loop, rejected outside any loop. The firmware side (Lang/EmitBlocks.v): _emit_block's treatment of IfStatement / WhileLoop / ForRangeLoop / TryStatement and the function / setup / loop sections of emit() are modelled line by line; read the way C++ groups lines into compound statements, the emitted lines are proved to be one stanza per branch, loop and handler around exactly its own lines (C07_emit_block_structure, C07_sketch_sections_structure), and - composed with the grouping of the lexical skeleton into IR nodes and with C07_roundtrip_partial - the compound statements of the firmware and the conditions each line runs under are proved to be those of Python's block tree for every layout inside the guard (C07_firmware_blocks_are_pythons_partial, C07_layout_to_firmware_partial, C07_firmware_paths_are_pythons_partial); the statement layer enters these theorems as arbitrary functions. The model is run against the real functions on enumerated and generated inputs; the property's own relations (same firmware across layouts; no unlisted line disappears; every control header of the script is in the firmware once and every numbered statement / break / continue / return runs in the function and under the chain of conditions Python gives it) are evaluated on the real transpiler.",
-    "level_note": "Trusted: Coq kernel, translator harness/gen/dispatch.py (black-box observation of parse+emit), extraction, OCaml driver, CPython tokenize/ast as 'what Python means'. Theorems are about the model; statement-level dispatch (the regex chain inside a line) is observed, not modelled.",
+    "level_text_2": "Added: (a) the round trip at the level of parse() is PROVED (C07_top_roundtrip_partial, C07_top_relayout_invariant_partial: target(...) directives, import filter, column-0 while True / while / for / def, if / try chains through _collect_if/try_structure, simple statements; guard Layout.top_layout_ok) and composed with the firmware block theorems into one statement from source text to emitted C++ blocks (C07_script_to_firmware_partial, C07_two_layouts_same_firmware_partial). (b) the statement recognisers are inside the model: every RE_* pattern is translated from its parsed form into Lang/Rx.v (derivative matcher, C07_rx_match_decides), 63 of 74 are proved to be instances of five shapes, the dispatch loop of _parse_simple_lines (order, device-set guards) is regenerated from its source and pinned (C07_dispatch_chain_pinned); optional spacing between tokens is proved accepted for every spacing inside the exact guard (C07_call0_spacing_partial, C07_call_spacing_partial, C07_decl_spacing, C07_sleep_spacing) and refuted outside it by the witnesses of the two findings (C07_call_paren_space_refuted, C07_call_dot_space_refuted, C07_call_args_paren_space_refuted, C07_keyword_paren_refuted).",
+    "level_note": "Trusted: Coq kernel, translator harness/gen/dispatch.py (black-box observation of parse+emit), extraction, OCaml driver, CPython tokenize/ast as 'what Python means'. Theorems are about the model. The RE_* patterns and the order / guards of the dispatch loop are regenerated from parser.py on every run (harness/gen/linerx.py, fail-closed) and run by a regex engine proved to decide the usual language of a regular expression.",
     "design_ref": "DESIGN.md section 4 C07, Appendix B.5",
 }
 
@@ -505,6 +507,133 @@ def run(ctx: C.Ctx):
             if oc == "Translated" and hooked and kind not in ("semicolon_join",):
                 ctx.disagree("hook _VERIF_IGNORED vs black-box observation (translated line reported as ignored)", script, "not reported", w["ignored"])
 
+    # ================================================================ 5b. statement recognisers: RE_* patterns and the dispatch loop
+    rx_names = C.run_impl("c07_impl.py", {"cases": [["rxnames"]]})[0]
+    shapes = L.shape_cases(rng, thorough)
+    shape_lines = [L.render_shape(c) for c in shapes]
+    pool = list(L.EXTRA_LINES) + list(HEADER_SEEDS) + shape_lines[:: (1 if thorough else 3)]
+    for krow in D.KINDS:
+        pool += [pl.strip() for pl in krow[1] if pl.strip()]
+    seen_l = set()
+    for lines in all_scripts[:: (1 if thorough else 4)]:
+        for l in lines:
+            t = l.split("#")[0].strip() if "\"" not in l and "'" not in l else l.strip()
+            if t and t not in seen_l:
+                seen_l.add(t)
+                pool.append(t)
+    base_pool = list(pool)
+    for _ in range(3000 if thorough else 700):
+        t = rng.choice(base_pool)
+        for _k in range(rng.choice([1, 1, 2, 3])):
+            t = L.mutate(rng, t)
+        pool.append(t.strip())
+    pool = [t for t in dict.fromkeys(pool) if t and "\n" not in t and all(ord(ch) < 128 or ch.isspace() for ch in t)]
+    # the loop looks at _strip_inline_comment(raw).strip() and has skipped blank / comment lines before the first recogniser
+    stripped = C.run_impl("c07_impl.py", {"cases": [["strip", t] for t in pool]}, timeout=3000)
+    pool = [t for t in dict.fromkeys(x.strip() for x in stripped) if t and not t.startswith("#")]
+    dist["recogniser_lines"] = len(pool)
+    # (i) every pattern on every line
+    rx_impl = C.run_impl("c07_impl.py", {"cases": [["rxall", t] for t in pool]}, timeout=3000)
+    n_rx = 0
+    matched_by = {}
+    if have_model:
+        rx_model = ctx.model([[17, t] for t in pool])
+        for t, ri, mo in zip(pool, rx_impl, rx_model):
+            n_rx += 1
+            mv = [bool(b) for b in mo[1]]
+            if len(mv) != len(rx_names) or mv != ri:
+                bad = [rx_names[i] for i in range(min(len(mv), len(ri))) if mv[i] != ri[i]]
+                ctx.disagree("RE_* pattern (regenerated, run by the extracted engine) vs the compiled pattern: " + ",".join(bad[:4]), t, mv, ri)
+            for i, b in enumerate(ri):
+                if b:
+                    matched_by[rx_names[i]] = matched_by.get(rx_names[i], 0) + 1
+                    nontrivial.add(("rx", rx_names[i], t))
+        evaluations += n_rx
+    dist["recogniser_patterns_with_a_matching_line"] = len(matched_by)
+    dist["recogniser_patterns"] = len(rx_names)
+    # (ii) the dispatch loop: patterns tried in order, handler
+    dcases = []
+    for t in pool:
+        a = L.spec_asg(t)
+        if a is None:
+            continue
+        for sets in ([L.SETS_DEFAULT] if not thorough and rng.random() < 0.7 else [L.SETS_DEFAULT, L.SETS_EMPTY, L.SETS_ALL]):
+            dcases.append((t, a, sets))
+    d_impl = C.run_impl("c07_impl.py", {"cases": [["dispatch", t, sets] for t, a, sets in dcases]}, timeout=3000)
+    n_disp = 0
+    hdist = {}
+    if have_model:
+        d_model = ctx.model([[18, a, [sets[k] for k in L.SET_KEYS], t] for t, a, sets in dcases])
+        for (t, a, sets), ri, mo in zip(dcases, d_impl, d_model):
+            n_disp += 1
+            mtrace = [[e[0], bool(e[1])] for e in mo[1]]
+            h = mo[2]
+            hname = {0: "import", 1: "eq", 2: "prefix", 3: "rx", 4: "search", 5: "assign", 6: "tail"}[h[0]]
+            hkey = hname + (":" + rx_names[h[1]] if h[0] in (0, 3, 4) else "")
+            hdist[hkey] = hdist.get(hkey, 0) + 1
+            rtrace = ri["trace"]
+            # the handler that took the line may itself use patterns (the if/try handlers probe for elif/else/except): compare the
+            # chain up to the accepting step; a line that reaches the tail has tried every pattern of the chain
+            ok = rtrace[: len(mtrace)] == mtrace and (len(rtrace) == len(mtrace) or h[0] in (3, 4, 0) or ri["exc"])
+            if h[0] == 5 and ri["asg"] is not True:
+                ok = False
+            if h[0] != 5 and ri["asg"] is True:
+                ok = False
+            if h[0] == 6 and len(rtrace) != len(mtrace):
+                ok = False
+            if not ok:
+                ctx.disagree("dispatch loop of _parse_simple_lines: patterns tried (id, matched) and the accepting step", [t, sets],
+                             {"trace": [[rx_names[i], b] for i, b in mtrace], "handler": hkey, "asg": a},
+                             {"trace": [[rx_names[i], b] for i, b in rtrace], "asg": ri["asg"], "exc": ri["exc"], "nodes": ri["nodes"]})
+            nontrivial.add(("dispatch", hkey, t))
+        evaluations += n_disp
+    dist["dispatch_handlers_reached"] = dict(sorted(hdist.items()))
+    # (iii) the spacing theorems: the Coq renderers are the Python twins; inside the exact guard Python's tokenizer sees the same
+    # statement AND the real parser builds the same nodes as for the canonical spacing (oracle); outside: model = code only
+    canon = {}
+    sp_cases = []
+    for c in shapes:
+        k, name, meth, args, g = c
+        sp_cases.append(c)
+        key = (k, name, meth, args)
+        if key not in canon:
+            canon[key] = L.render_shape((k, name, meth, args, ["", "", "", "", ""]))
+    sp_lines = [L.render_shape(c) for c in sp_cases]
+    uniq = sorted(set(sp_lines) | set(canon.values()))
+    tok = dict(zip(uniq, C.run_impl("c07_impl.py", {"cases": [["pytokens", t] for t in uniq]}, timeout=3000)))
+    dsp = dict(zip(uniq, C.run_impl("c07_impl.py", {"cases": [["dispatch", t, L.SETS_DEFAULT] for t in uniq]}, timeout=3000)))
+    n_sp = n_sp_guard = 0
+    if have_model:
+        m20 = ctx.model([[20, k, name, meth, args, g] for (k, name, meth, args, g) in sp_cases])
+    else:
+        m20 = [None] * len(sp_cases)
+    for c, line, mo in zip(sp_cases, sp_lines, m20):
+        k, name, meth, args, g = c
+        n_sp += 1
+        cl = canon[(k, name, meth, args)]
+        if tok[line] is None or tok[line] != tok[cl]:
+            ctx.disagree("SPEC line_call / line_decl / line_sleep: a gap of blanks / tabs between tokens changes CPython's token stream", [c, line], tok[cl], tok[line])
+            continue
+        inside = L.in_guard(k, g) and name.isidentifier() if k != 3 else True
+        if mo is not None:
+            if C.wstr(mo[1]) != line:
+                ctx.disagree("line_call0 / line_call / line_decl / line_sleep (Coq) vs the harness renderer", c, C.wstr(mo[1]), line)
+            if bool(mo[2]) != bool(inside):
+                ctx.disagree("spacing guard (Coq) vs the harness", c, bool(mo[2]), inside)
+            if inside and not mo[3]:
+                ctx.disagree("a line inside the spacing guard is rejected by its shape (contradicts C07_call_spacing_partial & co)", c, True, False)
+        if inside:
+            n_sp_guard += 1
+            a, b = dsp[cl], dsp[line]
+            if (a["exc"], a["repr"], a["trace"][-1:] if a["trace"] else None) != (b["exc"], b["repr"], b["trace"][-1:] if b["trace"] else None):
+                ctx.fail("optional spacing between the tokens of a statement (inside the proved spacing guard) changes what the parser builds from the line",
+                         {"canonical": cl, "respaced": line, "gaps": g}, {"exc": a["exc"], "nodes": a["repr"]}, {"exc": b["exc"], "nodes": b["repr"]},
+                         key="spacing:" + str(k))
+            nontrivial.add(("spacing", line))
+    evaluations += n_sp
+    dist["spacing_cases"] = n_sp
+    dist["spacing_cases_inside_guard"] = n_sp_guard
+
     # ================================================================ 6. known findings: replay every listed witness
     replayed = 0
     for f in ctx.findings:
@@ -547,6 +676,7 @@ def run(ctx: C.Ctx):
                  f"firmware block structure: the programs above plus {n_hollow} random programs in which every body (if / elif / else / while / for / try / except / def / main loop) is, with probability 0.35, made only of lines of the fixed set (pass, print, docstring, import), with chains of up to 5 elif and with break / bare return, plus an exhaustive family (every if chain of 1-3 branches and optional else, every try with 1-2 handlers, every loop, with bodies over {{device statement, pass, print}}, at column 0 / in the main loop / in a function / in a for body); "
                  "oracle C compares, per function of the sketch, the multiset of (path, item) - items: control headers, numbered statements, break / continue / return; path: function, enclosing loops / try / catch, and for a member of an if chain its own condition and the negated earlier ones - computed from the skeleton and from the firmware read with the C++ reader; the smallest failing script per class is shrunk by removing statements while the real transpiler still fails. "
                  "emitter: random IR control skeletons (depth <= 4, bodies empty with probability 0 / 0.3 / 0.6, 11 leaf node kinds incl. one that emits nothing and one that opens its own block, 5 indentations) plus all 81+8 placements of empty / line-less / non-empty bodies in a 3-branch chain, through the real _emit_block and the extracted emit_list (lines equal), whole hand-built Programs through the real emit() (sections), the extracted C++ reader against its Python twin on every emitted block and every real firmware section, and py_cs of the model (parse_lines -> to_ir) against the compound statements of the real firmware of every generated program. "
+                 "recognisers: every RE_* pattern (extracted engine on the regenerated pattern vs the compiled pattern) on the pool of lines = hand-picked near-misses, header seeds, the probe lines of the 69 statement kinds, the statement lines of the generated programs, all spacing variants of the four statement shapes, and 700 (3000) random 1-3 character edits of those over {blank, tab, ( ) . : = # \" , _ x 1}, each after _strip_inline_comment; the dispatch loop on the same lines under three device-name environments (the real _parse_simple_lines runs with recording proxies in place of the module's RE_* objects: patterns tried in order with outcome, accepting step); spacing: every gap position over {none, blank, two blanks, tab} for led.on() / mon.write(..) / led = Led(..) / sleep(..) plus random statements over 7+26 methods, 10 classes, 10 receivers - CPython tokenize must give the same tokens, and inside the exact guard of the spacing theorems the real parser must build the same nodes as for the canonical spacing (oracle). "
                  "non-trivial = a layout differing from the canonical one / a line the stripper changes / a non-empty span / a header text some regex matches."),
         "samples": samples,
         "distribution": {**dist, "programs": n_prog, "inguard_layouts": len(inguard), "perturbed_scripts": len(perturbed), "relayout_pairs": n_pairs,
@@ -560,13 +690,15 @@ def run(ctx: C.Ctx):
                   "firmware block structure: simple statements whose C++ lines are closed pieces (every block they open they close: leaf_ok), elif/else only after if/elif and except only after try/except (chain_ok - Python's grammar); "
                   "an `else` whose body yields no IR node is not written by the emitter - it cannot change what runs, the oracle accepts it present or absent; numbered statements are mon.write / x = / sleep lines."),
         "unmodelled": ["line continuation (backslash, open brackets) and multi-line string literals",
-                       "the statement dispatch chain inside a line (regexes of _parse_simple_lines after block detection): observed through the generated table and the hook, not modelled in Coq",
-                       "target(...) lines (captured before block detection)",
+                       "the handlers behind the recognisers (argument extraction, IR construction): the dispatch loop is modelled up to the accepting step; which (kind, context) ends translated / rejected / ignored is still the observed table Gen/Dispatch.v",
+                       "_handle_assignment_ast's decision to take a line (CPython's ast): enters the dispatch model as a boolean computed by the harness from CPython's ast and cross-checked against the real function on every case",
+                       "target(...) inside a NESTED block header (`if target(\"x\"):`) - parse_m does not model the skip; at column 0 target(...) directives are modelled (Lex.top_target)",
+                       "universally quantified dispatch theorems (which handler a whole family of lines reaches): proved are the recognisers' acceptance for every spacing inside the guard and the pinned order; the negative part (no earlier recogniser takes the line) is computed on concrete lines only",
                        "the C++ lines a simple (non-control) node is emitted as: leaves of the IR model carry them as given (taken from the real emitter in the correspondence); hoisting of declarations / pinMode into setup() by emit(); variable promotion nodes the parser inserts before a block",
                        "C++ compound statements are read line-wise (a line ending in `{` opens, a line `}` closes): braces inside string literals or several statements per line are outside the reader - the emitter writes one statement per line",
-                       "non-ASCII identifier characters in header regexes (\\w is modelled for ASCII)",
-                       "optional spacing inside a statement: checked by the re-layout oracle on the real transpiler only",
-                       "round trip at the level of parse() (column-0 headers, main loop, def, import filter; guard Layout.top_layout_ok): measured on every generated layout (model parse_top of the rendered layout = skeleton); proved are the round trip for snippets handed to _parse_simple_lines (C07_roundtrip_partial) and, at column 0, that a trailing comment on a line changes nothing of what parse() builds (C07_header_trailing_comment_invisible)"],
+                       "non-ASCII identifier / digit characters in the patterns (\\w, \\d, \\b are modelled for ASCII; generated lines are ASCII plus Unicode blanks)",
+                       "optional spacing around operators and commas inside argument / condition text (the recognisers see it as `.*`): re-layout oracle on the real transpiler only",
+                       "emit(): hoisting of declarations into setup(), order of function variants; ScriptFw.script_sections states one section per def in script order, then setup(), then loop()"],
         "trusted_base": C.COMMON_TRUSTED + ["harness/gen/dispatch.py + harness/c07_dispatch.py (probe scripts; outcome = exception / identical text / different text)",
                                             "CPython 3.12 tokenize + ast as the reference for Lang/PyLayout.v",
                                             "REDUINO_VERIF hook in parser.py (add-only, commit 3ef1d62)",
